@@ -7,7 +7,7 @@ namespace TV.C11
 open TV.Run
 
 /-- software `s` produces its outcome in global step `k`. -/
-def firesAt (tick k : Nat) (s : Sw) : Bool := s.running && s.finStep tick + s.regStep == k && s.effective != .never
+def firesAt (tick _k : Nat) (s : Sw) : Bool := s.running && s.finStep tick == s.ticks + 1 && s.effective != .never
 
 /-- **Finished or crashed software is never polled again**: `tickAll` leaves every software whose
     handle is gone exactly as it is. -/
@@ -25,7 +25,7 @@ theorem no_repoll (tick k : Nat) : ∀ (sws : List Sw) (i : Nat) (s : Sw), sws[i
       simp only [List.getElem?_cons_succ] at h
       by_cases hx : x.running = true
       · simp only [hx, Bool.not_true, Bool.false_eq_true, if_false]
-        by_cases hf : (x.finStep tick + x.regStep == k && x.effective != .never) = true
+        by_cases hf : (x.finStep tick == x.ticks + 1 && x.effective != .never) = true
         · simp only [hf, if_true]
           cases x.effective with
           | ok => simpa using no_repoll tick k rest j s h hr
@@ -50,7 +50,7 @@ theorem abort_has_cause (tick k : Nat) : ∀ (sws : List Sw),
     unfold tickAll
     by_cases hx : x.running = true
     · simp only [hx, Bool.not_true, Bool.false_eq_true, if_false]
-      by_cases hf : (x.finStep tick + x.regStep == k && x.effective != .never) = true
+      by_cases hf : (x.finStep tick == x.ticks + 1 && x.effective != .never) = true
       · simp only [hf, if_true]
         have hfire : firesAt tick k x = true := by
           unfold firesAt; simp only [hx, Bool.true_and]; exact hf
@@ -88,7 +88,7 @@ theorem finished_iff (tick k : Nat) : ∀ (sws : List Sw), (tickAll tick k sws).
     unfold tickAll at hno ⊢
     by_cases hx : x.running = true
     · simp only [hx, Bool.not_true, Bool.false_eq_true, if_false] at hno ⊢
-      by_cases hf : (x.finStep tick + x.regStep == k && x.effective != .never) = true
+      by_cases hf : (x.finStep tick == x.ticks + 1 && x.effective != .never) = true
       · simp only [hf, if_true] at hno ⊢
         have hfire : firesAt tick k x = true := by
           unfold firesAt; simp only [hx, Bool.true_and]; exact hf
